@@ -1,7 +1,8 @@
-(* The model of sm3/sm3.go is the constant-parametrised model (SM3ModelConsts.v) at the constants the
-   translator reads from the source.  Restated in Props/C04.v. *)
+(* The hand-written parts of the model of sm3/sm3.go are the constant-parametrised model
+   (SM3ModelConsts.v) at the constants the translator reads from the source.  Restated in Props/C04.v. *)
 From Coq Require Import List NArith Arith.
-From GmsmVerif Require Import Lib.Outcome SM3.SM3Spec SM3.SM3Model SM3.SM3ModelConsts Gen.SM3Consts.
+From GmsmVerif Require Import Lib.Outcome SM3.SM3Spec SM3.SM3Model SM3.SM3ModelConsts SM3.SM3CodeTie
+  Gen.SM3Consts Gen.SM3Code.
 Import ListNotations.
 Open Scope N_scope.
 
@@ -9,45 +10,12 @@ Open Scope N_scope.
 Lemma K_gen_is_model : K_gen = K_model.
 Proof. vm_compute. reflexivity. Qed.
 
-Lemma gen_shape_ok : gen_shape = model_shape.
-Proof. vm_compute. reflexivity. Qed.
-
-(* (1) the model is the parametrised model at K_model (definitional equalities of functions) *)
-Lemma leftRotate_fun : leftRotate = leftRotate_K K_model.
-Proof. reflexivity. Qed.
-
-Lemma p0_fun : p0 = p0_K K_model.
-Proof. unfold p0, p0_K. rewrite leftRotate_fun. reflexivity. Qed.
-
-Lemma p1_fun : p1 = p1_K K_model.
-Proof. unfold p1, p1_K. rewrite leftRotate_fun. reflexivity. Qed.
-
-Lemma load_w_fun : load_w = load_w_K K_model.
-Proof. reflexivity. Qed.
-
-Lemma expand_w_fun : expand_w = expand_w_K K_model.
-Proof. unfold expand_w, expand_w_K. rewrite leftRotate_fun, p1_fun. reflexivity. Qed.
-
-Lemma fill_w1_fun : fill_w1 = fill_w1_K K_model.
-Proof. reflexivity. Qed.
-
-Lemma round_lo_fun : round_lo = round_lo_K K_model.
-Proof. unfold round_lo, round_lo_K. rewrite leftRotate_fun, p0_fun. reflexivity. Qed.
-
-Lemma round_hi_fun : round_hi = round_hi_K K_model.
-Proof. unfold round_hi, round_hi_K. rewrite leftRotate_fun, p0_fun. reflexivity. Qed.
-
-Lemma block_body_at w w1 r msg : block_body w w1 r msg = block_body_K K_model w w1 r msg.
-Proof.
-  unfold block_body, block_body_K.
-  rewrite <- load_w_fun, <- expand_w_fun, <- fill_w1_fun, <- round_lo_fun, <- round_hi_fun. reflexivity.
-Qed.
-
+(* (1) the model is the parametrised model at K_model *)
 Lemma block_loop_at fuel : forall w w1 r msg, block_loop fuel w w1 r msg = block_loop_K K_model fuel w w1 r msg.
 Proof.
   induction fuel as [|x fuel IH]; intros w w1 r msg; cbn [block_loop block_loop_K]; [reflexivity|].
   change (ge_K K_model msg) with (ge64 msg). destruct (ge64 msg); [|reflexivity].
-  rewrite <- (block_body_at w w1 r msg). destruct (block_body w w1 r msg) as [[w' w1'] r'].
+  destruct (block_body w w1 r msg) as [[w' w1'] r'].
   change (k_step K_model) with 64%nat. apply IH.
 Qed.
 
@@ -61,7 +29,7 @@ Lemma pad_loop_at fuel : forall msg, pad_loop fuel msg = pad_loop_K K_model fuel
 Proof. induction fuel as [|fuel IH]; intros msg; cbn [pad_loop pad_loop_K]; [reflexivity|]. rewrite IH. reflexivity. Qed.
 
 Lemma pad_at s : pad s = pad_K K_model s.
-Proof. unfold pad, pad_K. rewrite pad_loop_at. reflexivity. Qed.
+Proof. rewrite pad_uses_generated_length. unfold pad_K. rewrite pad_loop_at. reflexivity. Qed.
 
 Lemma Write_at s p : Write s p = Write_K K_model s p.
 Proof. unfold Write, Write_K. cbv zeta. rewrite (update_at _ (s_unhandleMsg s ++ p)). reflexivity. Qed.
@@ -74,17 +42,15 @@ Qed.
 
 (* hence: at the constants of the source *)
 Lemma model_uses_source_constants :
-  (forall w w1 r msg, block_body w w1 r msg = block_body_K K_gen w w1 r msg) /\
   (forall s msg, update s msg = update_K K_gen s msg) /\
   (forall s msg, update2 s msg = update2_K K_gen s msg) /\
   (forall s, pad s = pad_K K_gen s) /\
   (forall s p, Write s p = Write_K K_gen s p) /\
   (forall s i, Sum s i = Sum_K K_gen s i) /\
-  BlockSize = k_BlockSize K_gen /\ Size = k_Size K_gen /\
-  (snd (k_sum_loop K_gen) * k_word K_gen = Size)%nat.
+  BlockSize = k_BlockSize K_gen /\ Size = k_Size K_gen.
 Proof.
   rewrite K_gen_is_model.
-  split; [intros; apply block_body_at|]. split; [intros; apply update_at|]. split; [intros; apply update2_at|].
+  split; [intros; apply update_at|]. split; [intros; apply update2_at|].
   split; [intros; apply pad_at|]. split; [intros; apply Write_at|]. split; [intros; apply Sum_at|].
-  split; [reflexivity|]. split; reflexivity.
+  split; reflexivity.
 Qed.
